@@ -18,7 +18,7 @@ from . import sx
 
 USED = {}
 _N = [0]
-OPTIONS = {"qr_positive_diag": True}
+OPTIONS = {"qr_positive_diag": True, "svd_positive": True, "eigh_spectrum": "real"}
 
 
 def reset():
@@ -126,13 +126,14 @@ def svd_stub(A, full_matrices=True, compute_uv=True, hermitian=False, **kw):
     real = _isreal(A)
     s = np.empty(r, dtype=object)
     for i in range(r):
-        s[i] = P.nonneg(f"s{k}_{i}")
+        # strictly positive (generic full-rank input): sqrt(s), 1/s stay monomials
+        s[i] = P.positive(f"s{k}_{i}") if OPTIONS["svd_positive"] else P.nonneg(f"s{k}_{i}")
     c = sx.Ctx.cur
     if c is not None:
         for i in range(r - 1):
-            c.add(c.polyvar(next(iter(s[i].t))[0]) >= c.polyvar(next(iter(s[i + 1].t))[0]))
+            c.add(c.polyvar(P.sid(s[i])) >= c.polyvar(P.sid(s[i + 1])))
         for i in range(r):
-            c.polyvar(next(iter(s[i].t))[0])
+            c.polyvar(P.sid(s[i]))
     if not compute_uv:
         # singular values only: tie them to A through sum s_i^2 = ||A||_F^2
         tot = sum((x * x.conjugate() for x in A.reshape(-1)), P.ZERO)
@@ -177,11 +178,13 @@ def eigh_stub(A, *a, **kw):
     real = _isreal(A)
     w = np.empty(n, dtype=object)
     for i in range(n):
-        w[i] = P.real(f"w{k}_{i}")
+        # "pos": the harness knows the matrix is positive definite (Gram matrix of a generic
+        # full-rank input); "nonneg": positive semi-definite; "real": any Hermitian matrix
+        w[i] = {"real": P.real, "nonneg": P.nonneg, "pos": P.positive}[OPTIONS["eigh_spectrum"]](f"w{k}_{i}")
     c = sx.Ctx.cur
     if c is not None:
         for i in range(n - 1):
-            c.add(c.polyvar(next(iter(w[i].t))[0]) <= c.polyvar(next(iter(w[i + 1].t))[0]))
+            c.add(c.polyvar(P.sid(w[i])) <= c.polyvar(P.sid(w[i + 1])))
     V = _fresh(f"E{k}", (n, n), real)
     W = np.empty((n, n), dtype=object)
     for i in range(n):
@@ -221,6 +224,34 @@ def solve_stub(A, B, *a, **kw):
     _add_eq(f"solve{k}:AX-B", A.dot(X) - B, real)
     P.ASSUMED.append("matrix passed to solve assumed invertible")
     return X
+
+
+def solve_triangular_stub(a, b, trans=0, lower=False, unit_diagonal=False, **kw):
+    """exact forward / back substitution (the diagonal entries are divided by: they must be
+    invertible symbols, e.g. the positive diagonal of a Cholesky / QR factor)"""
+    _use("scipy.linalg.solve_triangular (exact substitution)")
+    A = _lift_arr(np.asarray(a))
+    B = _lift_arr(np.asarray(b))
+    if trans in (1, "T"):
+        A = A.T
+        lower = not lower
+    elif trans in (2, "C"):
+        A = _dag(A)
+        lower = not lower
+    vec = B.ndim == 1
+    if vec:
+        B = B.reshape(-1, 1)
+    n = A.shape[0]
+    X = np.empty(B.shape, dtype=object)
+    order = range(n) if lower else range(n - 1, -1, -1)
+    for j in range(B.shape[1]):
+        for i in order:
+            acc = B[i, j]
+            ks = range(i) if lower else range(i + 1, n)
+            for k in ks:
+                acc = acc - A[i, k] * X[k, j]
+            X[i, j] = acc if unit_diagonal else acc / A[i, i]
+    return X.reshape(-1) if vec else X
 
 
 def cholesky_stub(A, *a, **kw):
@@ -321,6 +352,45 @@ def _wrap_reduce(real_fn, stub):
     return f
 
 
+class _ObjFinfo:
+    """machine epsilon of exact arithmetic: regularisations of the form eps * something vanish"""
+    eps = 0.0
+    tiny = 0.0
+    smallest_normal = 0.0
+    resolution = 0.0
+    max = float("inf")
+    min = -float("inf")
+    dtype = np.dtype(object)
+
+
+def _finfo(dtype):
+    try:
+        if np.dtype(dtype) == np.dtype(object):
+            return _ObjFinfo()
+    except TypeError:
+        pass
+    return _REAL["finfo"](dtype)
+
+
+def _unary(name):
+    real_fn = getattr(np, name)
+
+    def f(x, *a, **kw):
+        if isinstance(x, P.Poly):
+            return getattr(x, name)()
+        if _is_sym(x) and not a and not kw:
+            out = np.empty(x.shape, dtype=object)
+            for idx in np.ndindex(*x.shape):
+                v = P.lift(x[idx])
+                out[idx] = getattr(v, name)() if v is not NotImplemented else real_fn(x[idx])
+            return out if out.ndim else out[()]
+        return real_fn(x, *a, **kw)
+
+    f.__name__ = name
+    f.__qv_real__ = real_fn
+    return f
+
+
 def _realify_scalar(x, imag_tol=1e-12):
     if isinstance(x, P.Poly):
         return x
@@ -354,9 +424,14 @@ def install():
     scla.qr = _wrap(scla.qr, lambda A, mode="full", **kw: qr_stub(A, "reduced" if mode == "economic" else mode))
     scla.cholesky = _wrap(scla.cholesky, cholesky_stub)
     scla.solve = _wrap(scla.solve, solve_stub, argn=2)
+    scla.solve_triangular = _wrap(scla.solve_triangular, solve_triangular_stub, argn=2)
     scla.inv = _wrap(scla.inv, inv_stub)
     np.isnan = _isnan
     np.isfinite = _isfinite
+    _REAL["finfo"] = np.finfo
+    np.finfo = _finfo
+    for nm in ("sqrt", "exp", "log10", "cos", "sin"):
+        setattr(np, nm, _unary(nm))
     np.max = _wrap_reduce(np.max, _max_stub)
     np.amax = np.max
     import quimb.core as _qc
